@@ -90,6 +90,40 @@ pub fn run_cross(seed: u64, count: usize, max_instances: usize, convert: bool, o
     }
 }
 
+/// Beyond C06: values whose type is not the property's declared type but one both writers convert
+/// (Int32 for an Int64 / BrickColor property, Float32 for Float64, EnumItem for Enum).  Same event as a
+/// cross case; CrossFormatTrace additionally checks the converted value (clause "converted").
+pub fn run_cross_convertible(seed: u64, count: usize, out: &mut dyn Write) {
+    use rbx_dom_weak::types::{EnumItem, Variant, VariantType as T};
+    use rand::Rng;
+    std::panic::set_hook(Box::new(|_| {}));
+    let db = rbx_reflection_database::get();
+    let known: Vec<gen::KnownProp> = gen::known_props(db)
+        .into_iter()
+        .filter(|k| matches!(k.ty, T::Int64 | T::Float64 | T::Enum | T::BrickColor) && k.name != "UniqueId")
+        .collect();
+    let mut rng = StdRng::seed_from_u64(seed);
+    for i in 0..count {
+        let mut dom = WeakDom::new(rbx_dom_weak::InstanceBuilder::new("DataModel"));
+        let root = dom.root_ref();
+        for n in 0..rng.gen_range(1..4) {
+            let k = &known[rng.gen_range(0..known.len())];
+            let v = match k.ty {
+                T::Int64 => Variant::Int32(gen::i32_any(&mut rng)),
+                T::Float64 => Variant::Float32(gen::f32_any(&mut rng)),
+                T::Enum => Variant::EnumItem(EnumItem { ty: "Verif".to_string(), value: rng.gen_range(0..6) }),
+                _ => Variant::Int32(gen::BRICK_NUMBERS[rng.gen_range(0..gen::BRICK_NUMBERS.len())] as i32),
+            };
+            dom.insert(root, rbx_dom_weak::InstanceBuilder::new(k.class.as_str()).with_name(format!("Conv{}", n)).with_property(k.name.as_str(), v));
+        }
+        let roots: Vec<Ref> = dom.root().children().to_vec();
+        let ev = json!({"ep": format!("conv:{}:{}", seed, i), "op": "cross_case", "convertible": 1, "before": pforest(&dom, &roots),
+                        "bin": bin_trip(&dom, &roots), "xml": xml_trip(&dom, &roots, "IgnoreUnknown", "IgnoreUnknown")});
+        serde_json::to_writer(&mut *out, &ev).unwrap();
+        out.write_all(b"\n").unwrap();
+    }
+}
+
 /// C06: every serializable, non-migrating descriptor (canonical and alias spellings) once, as a
 /// one-property instance with a value valid in both formats; several instances per case.
 pub fn run_cross_descriptors(seed: u64, per_case: usize, out: &mut dyn Write) {
